@@ -503,7 +503,11 @@ def r14e(model: Model, rr: RuleResult):
     bm = [x for x in calls_in(c) if norm(x.func) == "BitmapMetrics"]
     if len(bm) != 1:
         raise AnalysisError("BitmapMetrics.create: BitmapMetrics(...) not found")
+    from ..dataflow import resolved as _res, fold_tuples as _ft
+    _ccfg = cfg_of(c)
     xo = kwarg(bm[0], "x_offset")
+    if xo is not None:
+        xo = _ft(_res(_ccfg, _ccfg.node_for(bm[0]), xo))
     subs = [n for n in ast.walk(xo) if isinstance(n, ast.BinOp) and isinstance(n.op, ast.Sub) and "_width_in_pixels" in norm(n.left)]
     if len(subs) != 1:
         raise AnalysisError("BitmapMetrics.create: x_offset is not of the form (advance in pixels - bitmap width) / 2")
@@ -562,8 +566,12 @@ def r14g(model: Model, rr: RuleResult):
     yo = kwarg(bm[0], "y_offset")
     if yo is None:
         raise AnalysisError("BitmapMetrics.create: y_offset keyword not found")
+    from ..dataflow import resolved as _res, fold_tuples as _ft
+    _ccfg = cfg_of(c)
+    yo = _ft(_res(_ccfg, _ccfg.node_for(bm[0]), yo))
+    _LH = norm(_ft(_res(_ccfg, _ccfg.node_for(bm[0]), ast.Name(id="line_height", ctx=ast.Load()))))
     img = c.params[2]
-    subs = [n for n in ast.walk(yo) if isinstance(n, ast.BinOp) and isinstance(n.op, ast.Sub) and norm(n.left) == "line_height"]
+    subs = [n for n in ast.walk(yo) if isinstance(n, ast.BinOp) and isinstance(n.op, ast.Sub) and norm(n.left) in ("line_height", _LH)]
     if len(subs) != 1:
         raise AnalysisError("BitmapMetrics.create: y_offset is not of the form line_ascent - (line_height - bitmap height) / 2")
     h = norm(subs[0].right)
